@@ -110,6 +110,7 @@ typedef struct {
   int      cb_in_cancel, cb_in_destroy, cb_in_start;
   uint32_t serials[APP_MAXSER];
   uint32_t ttls[APP_MAXSER];
+  uint8_t  ser_auth[APP_MAXSER]; /* entry comes from an authority-section SOA */
   int      nserials;
   int      result_naddr;
   int      had_result;
@@ -289,7 +290,11 @@ static void tok_digest_dnsrec(app_tok_t *t, const ares_dns_record_t *rec)
   for (i = 0; i < n; i++) {
     const ares_dns_rr_t *rr = ares_dns_record_rr_get_const(rec, ARES_SECTION_AUTHORITY, i);
     if (ares_dns_rr_get_type(rr) == ARES_REC_TYPE_SOA) {
+      int before = t->nserials;
       tok_add_serial(t, serial_from_text(ares_dns_rr_get_str(rr, ARES_RR_SOA_MNAME)), ares_dns_rr_get_ttl(rr));
+      if (t->nserials > before) {
+        t->ser_auth[t->nserials - 1] = 1;
+      }
     }
   }
 }
